@@ -165,7 +165,10 @@ class Walker:
             o, (types.FunctionType, types.BuiltinFunctionType,
                 types.MethodType, functools.partial)) or (
             callable(o) and not isinstance(o, type))
-        if not allowed_callable:
+        # an exception object is an error *value*; it is judged by what its
+        # attributes lead to (AttributeError.obj, OSError.filename, ...),
+        # which the loop below follows
+        if not allowed_callable and not isinstance(o, BaseException):
             self.violations.append(("python-object", tname, path))
         # what a module can get out of it: every attribute the runtime's
         # attribute filter lets through, and items of containers
@@ -296,6 +299,61 @@ def reachability(ctx, with_parent):
                     ncall += 1
                     roots.append((r[1], ["%s%r" % (k, av)], 1))
         found["helper_calls"] = ncall
+        # error values: a Python exception raised under a helper or a frame
+        # method reaches the module as the error value of pcall(); whatever
+        # the exception object carries (AttributeError.obj, .args, ...) is
+        # then the module's.  Calls that fail are as informative as calls
+        # that succeed, so failing results are roots too.
+        nerr = 0
+        title = "Probe page"
+        from wikitextprocessor.parserfns import PARSER_FUNCTIONS
+
+        def call_and_root(label, f, *av):
+            nonlocal nerr
+            try:
+                r = pc(f, *av)
+            except Exception:
+                return
+            if isinstance(r, tuple) and len(r) > 1 and r[1] is not None:
+                if not r[0]:
+                    nerr += 1
+                roots.append((r[1], [label], 1))
+
+        empty_tbl = ctx.lua.eval("{}")   # a Lua table: modules cannot make
+        hostile = [(), (None,), (title,), ("Module:probe",), (0,), (True,),
+                   (empty_tbl,), ("{{verif-none}}",), (title, title),
+                   ("x", None)]          # Python containers themselves
+        for m in ("preprocess", "expandTemplate", "callParserFunction",
+                  "extensionTag", "getTitle", "getParent", "newChild",
+                  "getArgument", "argumentPairs", "newParserValue",
+                  "newTemplateParserValue"):
+            f = frame[m]
+            if f is None:
+                continue
+            for av in hostile:
+                call_and_root("frame:%s%r" % (m, av), f, frame, *av)
+        cpf = frame["callParserFunction"]
+        for fn in sorted(PARSER_FUNCTIONS):
+            if fn in ("#invoke", "#property", "#statements"):
+                continue  # network by design / recursion into the probe
+            for av in ((), (title,), ("Module:probe",), ("x", "y"),
+                       ("Template:wrap", "R")):
+                call_and_root("frame:callParserFunction(%r,%r)" % (fn, av),
+                              cpf, frame, fn, *av)
+        for k in list(envt.keys()):
+            if not isinstance(k, str) or "wikibase" in k or "wikidata" in k:
+                continue
+            f = envt[k]
+            if not (k.startswith("mw_") or k.endswith("_python")
+                    or k.endswith("_py") or k.startswith("_")):
+                continue
+            if k in ("_lua_reset_env", "_lua_io_flush", "_G"):
+                continue
+            if w.lua_kind(f) != "function" and not callable(f):
+                continue
+            for av in hostile:
+                call_and_root("%s%r" % (k, av), f, *av)
+        found["error_values"] = nerr
         w.visit_all(roots)
         found["w"] = w
         found["nreq"] = nreq
@@ -563,7 +621,8 @@ def run(run):
                 "py": w.py_objects[:60], "npy": len(w.py_objects),
                 "violations": [(k, n, p[-6:]) for k, n, p in w.violations],
                 "nreq": found["nreq"], "names": found["names"],
-                "helper_calls": found.get("helper_calls", 0)}
+                "helper_calls": found.get("helper_calls", 0),
+                "error_values": found.get("error_values", 0)}
 
     for with_parent in (True, False):
         status, r, el = par.fork_child(reach_child, (with_parent,), timeout=120)
@@ -576,6 +635,7 @@ def run(run):
                     require_names_tried=r["names"],
                     require_names_loaded=r["nreq"],
                     helper_calls_with_results=r["helper_calls"],
+                    error_values_followed=r["error_values"],
                     python_object_samples=r["py"][:12])
         run.evaluations += r["reached"]
         for i in range(min(r["far"], 5000)):
@@ -630,7 +690,10 @@ def run(run):
         "environment and the frame give access to: raw table fields and "
         "keys, metatables (incl. the string metatable), frame:getParent(), "
         "mw.getCurrentFrame(), the results of every mw_* / *_python helper "
-        "called with 12 benign argument vectors, require(n) / _cached_mod(n) "
+        "called with 12 benign argument vectors, the results AND error values "
+        "of every frame method and helper called with 10 hostile argument "
+        "vectors and of frame:callParserFunction for every parser function "
+        "x 5 argument vectors, require(n) / _cached_mod(n) "
         "/ _new_loader(n) "
         "for every name in the host package.loaded / preload, every built-in "
         ".lua file stem, a list of well-known names and 20 decorated "
@@ -657,6 +720,9 @@ def run(run):
         "argument vectors only (wikibase helpers, which use the network by "
         "design, are not called); other arguments are the attack programs' "
         "business",
+        "a Python exception object that reaches Lua as an error value is not "
+        "itself counted as a leaked object; every attribute of it that "
+        "passes the runtime's filter is followed and judged",
         "memory safety of Lua / lupa is out of reach of this harness",
     ]
     run.trusted_base = ["fixtures/lua/* stand-ins (treated like built-in "
